@@ -124,6 +124,7 @@ type VC struct {
 	onlyLabels map[string]bool
 	dropped  map[string]int
 	relied   map[string]bool // callee contracts applied at call sites
+	allocEvents []*allocEvent // calls that only allocate in some heaps (see allocFrameAxioms)
 }
 
 func newVC(eng *Engine, key string) *VC {
@@ -651,4 +652,14 @@ func (fr *Frame) mergeVals(conds []string, vs []*Val, hint string) *Val {
 		}
 	}
 	return out
+}
+
+// allocEvent: a call after which some heaps differ from their previous
+// version only at objects allocated by the call.
+type allocEvent struct {
+	nfacts   int               // facts recorded up to and including the event
+	bound    string            // allocation watermark before the call
+	trans    map[string][2]string // heap -> (old term, new term), allocation-only
+	modified map[string]bool   // heaps with declared (non-allocation) effects in the same call
+	cur      map[string]string // every heap's term right after the call
 }
